@@ -12,6 +12,45 @@ Theorem C18_extrude : forall img,
 Proof. exact extrude_spec. Qed.
 Print Assumptions C18_extrude.
 
+(* the failure branch, exactly: the call fails iff a side is 0 or the buffer has the wrong length *)
+Theorem C18_extrude_none_iff : forall img,
+  extrude_border img = None <-> (uw img < 1 \/ uh img < 1 \/ zlen (upx img) <> uw img * uh img).
+Proof. exact extrude_none_iff. Qed.
+Print Assumptions C18_extrude_none_iff.
+
+(* the interior of the result is the input, unchanged *)
+Theorem C18_extrude_interior : forall img,
+  1 <= uw img -> 1 <= uh img -> zlen (upx img) = uw img * uh img ->
+  exists r, extrude_border img = Some r /\
+    forall x y, 0 <= x < uw img -> 0 <= y < uh img ->
+      nthz (upx r) ((y + 1) * (uw img + 2) + (x + 1)) = nthz (upx img) (y * uw img + x).
+Proof. exact extrude_interior. Qed.
+Print Assumptions C18_extrude_interior.
+
+(* the one-pixel border repeats the neighbouring row / column of the result (corners included) *)
+Theorem C18_extrude_edges : forall img,
+  1 <= uw img -> 1 <= uh img -> zlen (upx img) = uw img * uh img ->
+  exists r, extrude_border img = Some r /\
+    (forall x, 0 <= x < uw img + 2 ->
+       nthz (upx r) (0 * (uw img + 2) + x) = nthz (upx r) (1 * (uw img + 2) + x)) /\
+    (forall x, 0 <= x < uw img + 2 ->
+       nthz (upx r) ((uh img + 1) * (uw img + 2) + x) = nthz (upx r) (uh img * (uw img + 2) + x)) /\
+    (forall y, 0 <= y < uh img + 2 ->
+       nthz (upx r) (y * (uw img + 2) + 0) = nthz (upx r) (y * (uw img + 2) + 1)) /\
+    (forall y, 0 <= y < uh img + 2 ->
+       nthz (upx r) (y * (uw img + 2) + (uw img + 1)) = nthz (upx r) (y * (uw img + 2) + uw img)).
+Proof. exact extrude_edges. Qed.
+Print Assumptions C18_extrude_edges.
+
+(* every pixel of the result is a pixel of the input: no colour is invented *)
+Theorem C18_extrude_pixels_from_input : forall img,
+  1 <= uw img -> 1 <= uh img -> zlen (upx img) = uw img * uh img ->
+  exists r, extrude_border img = Some r /\
+    forall x y, 0 <= x < uw img + 2 -> 0 <= y < uh img + 2 ->
+      exists i, 0 <= i < uw img * uh img /\ nthz (upx r) (y * (uw img + 2) + x) = nthz (upx img) i.
+Proof. exact extrude_pixels_from_input. Qed.
+Print Assumptions C18_extrude_pixels_from_input.
+
 (* any alpha other than 255: the configured transparent index, or the failure index if none *)
 Theorem C18_lookup_transparent : forall entries failure transparent r g b a, a <> 255 ->
   mapper_lookup (mapper_new entries failure transparent) r g b a =
